@@ -78,6 +78,7 @@ type c16Key struct {
 	nPlus   *num.NatPlus
 	sk      *paillier.SecretKey
 	pk      *paillier.PublicKey
+	ctx     *Ctx // set by runC16: every operation then goes through the input-immutability oracle
 }
 
 func c16NatPlus(v *big.Int) *num.NatPlus {
@@ -235,10 +236,14 @@ type paillierOps interface {
 }
 
 func (k *c16Key) ops(path string) paillierOps {
+	var inner paillierOps = k.pk
 	if path == "sk" {
-		return k.sk
+		inner = k.sk
 	}
-	return k.pk
+	if k.ctx == nil {
+		return inner
+	}
+	return &c16Immut{c: k.ctx, path: path, inner: inner}
 }
 
 func runC16(c *Ctx) {
@@ -300,6 +305,7 @@ func runC16(c *Ctx) {
 		}
 	}
 	for _, k := range good {
+		k.ctx = c
 		if k.p.Cmp(k.q) < 0 {
 			c.Count("key.p<q")
 		} else {
@@ -313,6 +319,7 @@ func runC16(c *Ctx) {
 		c16SymEnc(c, kr, k)
 		c16SkOps(c, kr, k)
 		c16Chains(c, kr, k)
+		c16Aggregation(c, kr, k)
 		c16DecBad(c, kr, k)
 		if len(good) > 1 {
 			c16Foreign(c, kr, k, good[(i+1)%len(good)])
@@ -506,6 +513,11 @@ func c16Constructors(c *Ctx, r *Rng, k *c16Key) {
 func (k *c16Key) emitDecOpen(c *Ctx, ct *paillier.Ciphertext, wantM, wantR *big.Int) {
 	cv := ctBig(ct)
 	lhs := fmt.Sprintf("%s %s %s %s", hexNat(k.p), hexNat(k.q), hexNat(ct.Value().N().Big()), hexNat(cv))
+	if k.ctx != nil {
+		g := newGuard(k.ctx, "paillier.sk.Decrypt+Open")
+		g.val("ciphertext", func() string { return snapCt(ct) })
+		defer g.done()
+	}
 	res := safely(func() string {
 		m, err := k.sk.Decrypt(ct)
 		if err != nil {
@@ -527,7 +539,7 @@ func (k *c16Key) emitDecOpen(c *Ctx, ct *paillier.Ciphertext, wantM, wantR *big.
 			c.Violation(fmt.Sprintf("Open returned a different opening p=%s q=%s c=%s want=%s got=%s", hexNat(k.p), hexNat(k.q), hexNat(cv), hexList(wantM, wantR), hexList(ptBig(m), ncBig(n))))
 		}
 		// independent oracle: re-encryption under the public path
-		back, err := k.pk.EncryptWithNonce(m, n)
+		back, err := k.ops("pk").EncryptWithNonce(m, n)
 		if err != nil || !back.Equal(ct) {
 			c.Violation(fmt.Sprintf("Open: re-encryption differs p=%s q=%s c=%s opened=%s", hexNat(k.p), hexNat(k.q), hexNat(cv), hexList(ptBig(m), ncBig(n))))
 		}
@@ -734,9 +746,12 @@ func (k *c16Key) c16Step(c *Ctx, r *Rng, path string, t *c16Triple) (kind, opera
 	switch r.IntN(6) {
 	case 0, 1: // CiphertextOp with 1..3 further ciphertexts
 		n := 1 + r.IntN(3)
-		others := make([]*c16Triple, n)
+		// the operands live in arrays with 0..2 further LIVE elements behind the window that is
+		// passed as the variadic argument (sub-slice xs[1:n] with n < len <= cap)
+		total := n + r.IntN(3)
+		others := make([]*c16Triple, total)
 		ms, rs, cs := make([]string, n), make([]string, n), make([]string, n)
-		pts, ncs, cts := make([]*paillier.Plaintext, n), make([]*paillier.Nonce, n), make([]*paillier.Ciphertext, n)
+		pts, ncs, cts := make([]*paillier.Plaintext, total, total+1), make([]*paillier.Nonce, total, total+1), make([]*paillier.Ciphertext, total, total+1)
 		for i := range others {
 			otherPath := []string{"pk", "sk"}[r.IntN(2)]
 			others[i] = k.freshTriple(otherPath, r)
@@ -744,18 +759,28 @@ func (k *c16Key) c16Step(c *Ctx, r *Rng, path string, t *c16Triple) (kind, opera
 				others[i] = t // squaring
 			}
 			pts[i], ncs[i], cts[i] = others[i].pt, others[i].nc, others[i].ct
-			ms[i], rs[i], cs[i] = hexNat(ptBig(pts[i])), hexNat(ncBig(ncs[i])), hexNat(ctBig(cts[i]))
+			if i < n {
+				ms[i], rs[i], cs[i] = hexNat(ptBig(pts[i])), hexNat(ncBig(ncs[i])), hexNat(ctBig(cts[i]))
+			}
+		}
+		if total > n {
+			c.Count("hom.op.subslice")
 		}
 		kind = "op"
 		operands = joinComma(ms) + " " + joinComma(rs) + " " + joinComma(cs)
 		out = &c16Triple{}
-		if out.ct, err = o.CiphertextOp(t.ct, cts[0], cts[1:]...); err != nil {
+		if out.ct, err = o.CiphertextOp(t.ct, cts[0], cts[1:n]...); err != nil {
 			return
 		}
-		if out.pt, err = o.PlaintextOp(t.pt, pts[0], pts[1:]...); err != nil {
+		if out.pt, err = o.PlaintextOp(t.pt, pts[0], pts[1:n]...); err != nil {
 			return
 		}
-		out.nc, err = o.NonceOp(t.nc, ncs[0], ncs[1:]...)
+		out.nc, err = o.NonceOp(t.nc, ncs[0], ncs[1:n]...)
+		for i := range others {
+			if cts[i] != others[i].ct || pts[i] != others[i].pt || ncs[i] != others[i].nc {
+				c.Violation(fmt.Sprintf("input-mutated operand array slot %d replaced by a homomorphic product path=%s", i, path))
+			}
+		}
 	case 2:
 		kind = "inv"
 		out = &c16Triple{}
